@@ -37,7 +37,7 @@ TRUSTED = ["hand transcription of WHATWG HTML 9.2.6 'Interpreting an event strea
            "run against an independent Python transcription (harness ref_parse)",
            "UTF-8 encode/decode round trip of CPython (the theorems speak about code points)"]
 ASSUMPTIONS = ["the data text, event name and id contain no lone surrogates (they are text that UTF-8 can encode)",
-               "charset is utf-8, the only encoding an EventSource decodes; other ASCII-compatible charsets are exercised on ASCII text only",
+               "charset is utf-8, the only encoding an EventSource decodes; under another ASCII-compatible charset the bytes are read back with that charset (text it can encode)",
                "event name and id: no CR/LF (single-line); id: no NUL (the standard ignores such an id); retry: a non-negative int",
                "an event without a 'data' key dispatches nothing by the standard; the theorem then speaks about the block record "
                "(DESIGN.md 5/C19 'Reading')",
@@ -49,6 +49,12 @@ NAMES = ["", "a", "message", " lead", "a:b", ":x", "\u00e9v", "x\u2028y", "\x0b"
 IDS = ["", "1", " x", "a:b", "\u2029", "\u00e9", "0042", "\x85z"]
 RETRIES = [0, 1, 3000, 10 ** 20, 7]
 KEYS = ("data", "event", "id", "retry")
+
+
+CHARSET_TEXTS = [("latin-1", ["na\u00efve", "\u00a35", "\u00e9"]), ("cp1252", ["\u20acuro", "na\u00efve", "\u0153"]),
+                 ("iso-8859-15", ["\u20ac", "\u00e9t\u00e9"]), ("cp1251", ["\u043f\u0440\u0438\u0432\u0435\u0442", "\u0436"]),
+                 ("gb18030", ["\u901a\u77e5", "\u00e9", "\U0001F600"]), ("shift_jis", ["\u65e5\u672c\u8a9e", "\u8868\u793a"]),
+                 ("utf-8", ["\u901a\u77e5", "\u00a35"])]
 
 
 def texts(alphabet, maxlen):
@@ -138,6 +144,13 @@ def cases(tier, rng, level=None):
     for cs in ("ascii", "latin-1", "utf-8", "cp1252", "iso-8859-15"):
         for t in ("", "a", "a\r\nb", " x:y\n"):
             yield "charsets", ["cs", cs, mk(("id", "data", "event"), t)]
+    # other charsets on text they can encode: whoever decodes the bytes with the charset the response was given reads the event
+    for cs, samples in CHARSET_TEXTS:
+        for name in samples:
+            for id_ in samples[:2]:
+                for d in ("", samples[-1], "a\r\n " + samples[0] + "\n"):
+                    yield "charsets", ["cs", cs, mk(("event", "id", "data"), d, name, id_)]
+                    yield "charsets", ["cs", cs, mk(("data", "retry", "id"), d, name, id_)]
     # (c) random longer texts
     n_rand = 3000 if level == 0 else 40000
     for _ in range(n_rand):
@@ -346,7 +359,8 @@ def impl(case):
             return ["badcase"]
     except Exception as e:
         return [["exc", type(e).__name__]]
-    text = b.decode("utf-8")           # what an EventSource does with the bytes
+    # what an EventSource does with the bytes; under another charset: what a reader does that honours the charset of the response
+    text = b.decode(case[1] if op == "cs" else "utf-8")
     return [text, ref_parse(text)]
 
 
